@@ -1,6 +1,108 @@
-(* C12 -- placeholder while the correspondence is brought up *)
+(* C12 -- what an endpoint sends on a stream and at close is self-consistent.
+   Property theorems only; each is closed by [exact] of a lemma proved in proofs/. *)
 From SQ Require Import lib.Base gen.Gen_C12.
-From SQ Require model.DataSender model.SendJudge.
-Theorem C12_stream_id_step_is_4 : Gen_C12.stream_id_step = 4%N.
+From SQ Require model.DataSender model.SendJudge model.StreamId model.CloseSender.
+From SQ Require proofs.SendProofs proofs.StreamIdProofs proofs.CloseSenderProofs.
+Import DataSender SendJudge.
+Local Open Scope N_scope.
+
+(* frames_are_slices: the one place that writes stream data, transmit_interval, writes a STREAM frame
+   whose payload is exactly the slice [lo, h) of what was written on that stream (position-keyed
+   payload), with lo < h <= the requested end *)
+Theorem C12_frames_are_slices : forall salt s c p lo hi h s' c' p',
+  tx_interval salt s c p lo hi = (Some h, s', c', p') ->
+  (exists size fin, p' = p_write p size (mk_frame 1 (s_sid s) lo 0 fin (slice salt (s_k s) lo (h - lo))) /\ size <= p_rem p)
+  /\ lo < h /\ h <= hi
+  /\ h <= f_maxsd (s_fc s') /\ h <= f_acq (s_fc s')
+  /\ c_total c' = c_total c /\ f_acq (s_fc s') + c_avail c' = f_acq (s_fc s) + c_avail c
+  /\ f_maxsd (s_fc s') = f_maxsd (s_fc s) /\ f_acq (s_fc s) <= f_acq (s_fc s').
+Proof. exact SendProofs.tx_interval_frame. Qed.
+
+(* retransmission_identical: two such payloads that both cover offset o carry the same byte at o,
+   whatever the segmentation *)
+Theorem C12_retransmission_identical : forall salt k lo1 len1 lo2 len2 o,
+  lo1 <= o -> o < lo1 + len1 -> lo2 <= o -> o < lo2 + len2 ->
+  nth (N.to_nat (o - lo1)) (slice salt k lo1 len1) 0 = nth (N.to_nat (o - lo2)) (slice salt k lo2 len2) 0.
+Proof. exact SendProofs.retransmission_identical. Qed.
+
+(* quiet_after_reset: a reset puts the stream into a shape (SendStreamState <> Sending, DataSender
+   cancelled and cleared, STREAM_DATA_BLOCKED sync cancelled) that is stable under transmission and in
+   which on_transmit writes nothing but the RESET_STREAM with the final size fixed at reset time *)
+Theorem C12_reset_enters_quiet_shape : forall s code app, s_ss s = 0 -> s_ds s <> 5 ->
+  SendProofs.reset_shape (ss_reset s code app).
+Proof. exact SendProofs.reset_shape_reset. Qed.
+
+Theorem C12_quiet_after_reset : forall salt s c p r s' c' p',
+  SendProofs.reset_shape s -> ss_transmit salt s c p = (r, s', c', p') ->
+  (p_out p' = p_out p \/
+   p_out p' = p_out p ++ [mk_frame 2 (s_sid s) (s_rst_final s) (s_rst_code s) false []])
+  /\ SendProofs.reset_shape s'.
+Proof. exact SendProofs.quiet_after_reset. Qed.
+
+(* the judgement of the stream component (slices, nothing beyond the final size, final size stable and
+   not below what was sent, nothing but RESET_STREAM after RESET_STREAM) accepts the model whenever an
+   invariant linking model and monitor is preserved by the nine operations: the plumbing half of
+   judge_run (parsing of the rendered output, monitor walk); see the report for what is not closed *)
+Theorem C12_ss_judge_run_partial : forall salt n (I : conn -> mon -> Prop),
+  0 < n ->
+  (forall k m, I k m -> length (k_streams k) = N.to_nat n) ->
+  (forall k m i len res s', I k m -> i < n -> ss_push (get_stream k i) len = (res, s') ->
+     (-1 <= res <= Nz len)%Z /\
+     I (with_stream k i (fun _ => s'))
+       (with_ms m i (fun s => mk_ms (m_w s + zN res) (m_hi s) (m_fin s) (m_rst s) (m_lim s)))) ->
+  (forall k m i res s', I k m -> i < n -> ss_finish (get_stream k i) = (res, s') -> I (with_stream k i (fun _ => s')) m) ->
+  (forall k m i code app, I k m -> i < n -> I (with_stream k i (fun s => ss_reset s code app)) m) ->
+  (forall k m t cap c md k' fs, I k m -> t < n + 1 -> c < 4 -> cap < 65536 ->
+     conn_transmit salt k t cap c md = (k', fs) ->
+     exists m', chk_frames (chk12 salt n) n m fs = Some m' /\ I k' m') ->
+  (forall k m lo hi, I k m -> I (conn_ack k lo hi) m) ->
+  (forall k m lo hi, I k m -> I (conn_loss k lo hi) m) ->
+  (forall k m i v, I k m -> i < n ->
+     I (with_stream k i (fun s => ss_max_stream_data s v))
+       (with_ms m i (fun s => mk_ms (m_w s) (m_hi s) (m_fin s) (m_rst s) (N.max (m_lim s) v)))) ->
+  (forall k m v, I k m -> I (conn_max_data k v) (mk_mon (m_streams m) (N.max (m_limd m) v))) ->
+  forall fuel k m ops rest, I k m ->
+  walk (chk12 salt n) fuel n m ops (run_ops fuel salt n k ops ++ rest) = true.
+Proof. exact (SendProofs.walk_run_ops chk12). Qed.
+
+(* ids_increase_no_reuse: every id handed out has the low bits of its type and is strictly above the
+   previous id of that type (ids are initial + 4 * number opened before) *)
+Theorem C12_ids_increase_no_reuse : forall server t c y id c',
+  StreamIdProofs.Inv server t c y -> StreamId.l_open server t c = (Some id, c') ->
+  StreamId.ok12 server t y id = true /\ StreamIdProofs.Inv server t c' (StreamId.mk_mty (Some id) (StreamId.y_lim y)).
+Proof. exact StreamIdProofs.open_ok12. Qed.
+
+Theorem C12_st_judge_run : forall case, StreamId.judge12 case (StreamId.run case) = true.
+Proof. exact StreamIdProofs.judge12_run. Qed.
+
+(* close_only_close: the close sender only ever writes its stored close packet, and the number of
+   copies written never exceeds 1 + the number of datagrams received (all histories) *)
+Theorem C12_cs_judge_run : forall case, CloseSender.judge case (CloseSender.run case) = true.
+Proof. exact CloseSenderProofs.judge_run. Qed.
+
+Theorem C12_close_rate_limited : forall s sent recv, CloseSenderProofs.Inv s sent recv -> sent <= 1 + recv.
+Proof. exact CloseSenderProofs.close_rate_limited. Qed.
+
+Theorem C12_stream_id_step_is_4 : Gen_C12.stream_id_step = 4.
 Proof. reflexivity. Qed.
+
+Theorem C12_min_write_size_is_32 : Gen_C12.min_write_size = 32.
+Proof. reflexivity. Qed.
+
+(* non-vacuity: loss and retransmission in a different segmentation, then FIN *)
+Example C12_example :
+  judge12 [9; 10000; 0; 0; 10000; 1; 0; 200; 5; 1; 120; 0; 0; 5; 1; 120; 0; 0; 7; 0; 0; 5; 1; 33; 0; 0; 2; 0; 5; 1; 1200; 0; 0]%Z
+    (DataSender.run [9; 10000; 0; 0; 10000; 1; 0; 200; 5; 1; 120; 0; 0; 5; 1; 120; 0; 0; 7; 0; 0; 5; 1; 33; 0; 0; 2; 0; 5; 1; 1200; 0; 0]%Z) = true.
+Proof. vm_compute. reflexivity. Qed.
+
+Print Assumptions C12_frames_are_slices.
+Print Assumptions C12_retransmission_identical.
+Print Assumptions C12_reset_enters_quiet_shape.
+Print Assumptions C12_quiet_after_reset.
+Print Assumptions C12_ss_judge_run_partial.
+Print Assumptions C12_ids_increase_no_reuse.
+Print Assumptions C12_st_judge_run.
+Print Assumptions C12_cs_judge_run.
+Print Assumptions C12_close_rate_limited.
 Print Assumptions C12_stream_id_step_is_4.
+Print Assumptions C12_min_write_size_is_32.
